@@ -275,6 +275,9 @@ def r1(c):
             tail = n
         elif isinstance(n, ast.AugAssign) and isinstance(n.target, ast.Name) and n.target.id == W and const(n.value) is not None:
             suffix = n
+        elif isinstance(n, ast.Assign) and isinstance(n.targets[0], ast.Name) and n.targets[0].id == W and isinstance(n.value, ast.BinOp) and isinstance(n.value.op, ast.Add) \
+                and isinstance(n.value.left, ast.Name) and n.value.left.id == W and const(n.value.right) is not None:
+            suffix = n          # `row = row + "<suffix>"`, the same statement as `row += "<suffix>"`
         elif isinstance(n, ast.Assign) and isinstance(n.targets[0], ast.Name) and n.targets[0].id == W and isinstance(n.value, ast.Subscript) and norm(n.value) == f"{W}[:-3]":
             dots = n
     if tail is None or suffix is None or dots is None:
@@ -285,7 +288,7 @@ def r1(c):
             key_text="tilde")
     c.check("C07.R1", G.equivalent(gm.formula(dots, env), G.And(G.Not(G.Atom("ends_tilde")), G.Atom("ends_dots"))), repo.loc(m, dots), "compile_row_regexp/...",
             "`...` is not stripped exactly when the row ends with it", key_text="dots")
-    sx = const(suffix.value)
+    sx = const(suffix.value) if isinstance(suffix, ast.AugAssign) else const(suffix.value.right)
     fs = flat(sx)
     okb = False
     want = {(("IN", ("(CATEGORY, CATEGORY_SPACE)",)),), (("AT", "AT_END"),)}
@@ -610,6 +613,41 @@ def r3(c, rid="C07.R3"):
 
 
 # ------------------------------------------------------------------ R4
+def _scheme_keys(repo, mod, fn, v, depth=0):
+    """the parameter names of a scheme: a dict literal, a local holding one, or the result of a same-module builder (literal + `scheme[<name>] = ...` stores, the name a
+    constant or the variable of a loop over a literal tuple)"""
+    if isinstance(v, ast.Dict):
+        return {k.value for k in v.keys if isinstance(k, ast.Constant)}
+    if isinstance(v, ast.Name):
+        keys = set()
+        hit = False
+        for n in walk_no_nested(fn):
+            if isinstance(n, ast.Assign) and len(n.targets) == 1 and norm(n.targets[0]) == v.id:
+                k2 = _scheme_keys(repo, mod, fn, n.value, depth + 1) if not isinstance(n.value, ast.Name) else None
+                if k2 is not None:
+                    keys |= k2
+                    hit = True
+            if isinstance(n, ast.Assign) and isinstance(n.targets[0], ast.Subscript) and norm(n.targets[0].value) == v.id:
+                sl = n.targets[0].slice
+                if isinstance(sl, ast.Constant):
+                    keys.add(sl.value)
+                elif isinstance(sl, ast.Name):
+                    loop = next((w for w in walk_no_nested(fn) if isinstance(w, ast.For) and isinstance(w.target, ast.Name) and w.target.id == sl.id and any(y is n for y in ast.walk(w))), None)
+                    if loop is not None and isinstance(loop.iter, (ast.Tuple, ast.List)) and all(isinstance(e, ast.Constant) for e in loop.iter.elts):
+                        keys |= {e.value for e in loop.iter.elts}
+                    else:
+                        return None         # a key that is not known statically: refuse rather than guess
+        return keys if hit else None
+    if isinstance(v, ast.Call) and depth < 3:
+        r = repo.resolve_call(mod, v)
+        if r and isinstance(r[2], ast.FunctionDef):
+            h = repo.func(r[0].name, r[1])
+            rets = [n for n in walk_no_nested(h) if isinstance(n, ast.Return) and n.value is not None]
+            if len(rets) == 1:
+                return _scheme_keys(repo, r[0], h, rets[0].value, depth + 1)
+    return None
+
+
 def schemes(repo):
     out = {}
     for kind, (modname, fname) in {"rul": ("annet.rulebook.patching", "compile_patching_text"), "order": ("annet.annlib.rbparser.ordering", "compile_ordering_text"),
@@ -618,8 +656,8 @@ def schemes(repo):
         keys = None
         for call in calls_in(fn):
             v = kwarg(call, "params_scheme", 1)
-            if isinstance(v, ast.Dict):
-                keys = {k.value for k in v.keys if isinstance(k, ast.Constant)}
+            if v is not None:
+                keys = _scheme_keys(repo, repo.module(modname), fn, v) or keys
         if keys is None:
             raise AnchorError(f"{fname}: params_scheme literal not found")
         out[kind] = keys
@@ -661,11 +699,39 @@ def r5(c, rid="C07.R5"):
     c.rule(rid, "match_deploy_rule returns a rule only when depth == len(cmd_path) - 1; otherwise the search continues in that rule's children; the fallback is the "
                      "default rule with DEFAULT_TIMEOUT")
     m = repo.module("annet.rulebook.deploying")
-    fn = repo.func("annet.rulebook.deploying", "match_deploy_rule")
+    entry = fn = repo.func("annet.rulebook.deploying", "match_deploy_rule")
     c.count("functions")
+    want0 = G.linear_relation(ast.parse("depth == len(cmd_path) - 1", mode="eval").body)
+
+    def has_depth_test(f_):
+        return any(isinstance(x, ast.Compare) and G.linear_relation(x) == want0 for x in ast.walk(f_))
+    split = None
+    if not has_depth_test(fn):
+        # the per-level search may live in a helper that answers (rule | None, rules of the next level): `(found, rules) = helper(rules, ...)`; `if found is not None: return found`
+        for x in calls_in(fn):
+            r_ = repo.resolve_call(m, x)
+            if r_ and isinstance(r_[2], ast.FunctionDef) and r_[0] is m and has_depth_test(r_[2]):
+                st_ = GuardMap(fn).stmt(x)
+                if isinstance(st_, ast.Assign) and isinstance(st_.targets[0], ast.Tuple) and len(st_.targets[0].elts) == 2 and all(isinstance(e_, ast.Name) for e_ in st_.targets[0].elts):
+                    split = (st_.targets[0].elts[0].id, st_.targets[0].elts[1].id, x, repo.func("annet.rulebook.deploying", r_[1]))
+        if split is None:
+            raise AnchorError("match_deploy_rule: the depth test `depth == len(cmd_path) - 1` not found (neither here nor in a per-level helper)")
+        FOUND, NEXT, hcall, fn = split
+        # the entry hands the helper's answer on: returns the found rule when there is one, searches the next element in the rules the helper answered
+        egm = GuardMap(entry)
+        erets = [n for n in walk_no_nested(entry) if isinstance(n, ast.Return) and isinstance(n.value, ast.Name) and n.value.id == FOUND]
+        okp = len(erets) == 1 and NEXT == norm(hcall.args[0]) if hcall.args else False
+        if okp:
+            fe = egm.formula(erets[0], G.GuardEnv(rename=lambda s_: "found" if s_.replace(" ", "") in (f"{FOUND}isnotNone", f"{FOUND}") else "nofound" if s_.replace(" ", "") == f"{FOUND}isNone" else s_))
+            okp = G.equivalent(fe, G.Atom("found")) or G.equivalent(fe, G.Not(G.Atom("nofound")))
+        c.check(rid, bool(okp), repo.loc(m, hcall), "match_deploy_rule/per-level-helper", "the answer of the per-level helper is not handed on as (rule found -> returned; otherwise the next "
+                "element is searched in the rules it answered)", key_text="split-pass")
     gm = GuardMap(fn)
     rets = [n for n in walk_no_nested(fn) if isinstance(n, ast.Return)]
-    inner = [r for r in rets if isinstance(r.value, ast.Name)]
+    if split:
+        inner = [r for r in rets if isinstance(r.value, ast.Tuple) and len(r.value.elts) == 2 and isinstance(r.value.elts[0], ast.Name)]
+    else:
+        inner = [r for r in rets if isinstance(r.value, ast.Name)]
     ok = len(inner) == 1
     if ok:
         f = gm.formula(inner[0], alias=True)
@@ -679,7 +745,13 @@ def r5(c, rid="C07.R5"):
         ok = bool(depth_atoms) and any(G.implies(f, G.formula(x, G.GuardEnv())) for x in depth_atoms)
         ok = ok and any(".match(row)" in a for a in G.atoms(f))
     c.check(rid, ok, repo.loc(m, inner[0] if inner else fn), "match_deploy_rule/return-depth", "a rule is returned other than for the last element of the command path after matching every level", key_text="depth")
-    desc = [n for n in walk_no_nested(fn) if isinstance(n, ast.Assign) and norm(n.targets[0]) == "rules" and "children" in norm(n.value)]
+    if split:
+        # the rules of the next level: the name returned as second element by the helper's fall-through return
+        tails = [r for r in rets if isinstance(r.value, ast.Tuple) and len(r.value.elts) == 2 and isinstance(r.value.elts[1], ast.Name) and not isinstance(r.value.elts[0], ast.Name)]
+        nxt = tails[-1].value.elts[1].id if tails else None
+        desc = [n for n in walk_no_nested(fn) if isinstance(n, ast.Assign) and nxt and norm(n.targets[0]) == nxt and "children" in norm(n.value)]
+    else:
+        desc = [n for n in walk_no_nested(fn) if isinstance(n, ast.Assign) and norm(n.targets[0]) == "rules" and "children" in norm(n.value)]
     c.check(rid, bool(desc), repo.loc(m, fn), "match_deploy_rule/descend", "the search does not descend into the matched rule's children", key_text="descend")
     if desc and ok:
         # the descent is unconditional for a rule matched above the last element: what follows a childless match is the default rule, not the siblings of the match
@@ -692,8 +764,9 @@ def r5(c, rid="C07.R5"):
         c.check(rid, G.equivalent(fd, want_desc), repo.loc(m, desc[0]), "match_deploy_rule/descend-guard", f"the search descends under {G.show(fd)}; expected: whenever the rule matched "
                 "above the last element of the path — with an extra condition (e.g. only when the rule has children) commands inside a block matched by a childless rule are "
                 "matched against that rule's siblings instead of getting the defaults", key_text="descend-guard")
+    rets = [n for n in walk_no_nested(entry) if isinstance(n, ast.Return)]
     dflt = [r for r in rets if isinstance(r.value, ast.Dict)]
-    ok = bool(dflt) and "DEFAULT_TIMEOUT" in norm(dflt[0].value) and dflt[0] is [st for st in fn.body if not isinstance(st, ast.Pass)][-1]
+    ok = bool(dflt) and "DEFAULT_TIMEOUT" in norm(dflt[0].value) and dflt[0] is [st for st in entry.body if not isinstance(st, ast.Pass)][-1]
     c.check(rid, ok, repo.loc(m, fn), "match_deploy_rule/default", "the fallback is not the default rule with DEFAULT_TIMEOUT", key_text="default")
 
 
